@@ -61,6 +61,7 @@ def strip_for_hash(node):
 
 # ----------------------------------------------------------------------------------------------- obligations
 PROVED, REFUTED, UNKNOWN, ERROR = 'proved', 'refuted', 'unknown', 'error'
+INCONCLUSIVE = 'inconclusive'     # a supporting lemma (code-to-spec link) failed without any natively failing input: the property is undecided, not violated
 
 class Ob:
     """One proof obligation and its verdict."""
@@ -132,6 +133,8 @@ class Report:
                 changed = (locked is None) or (locked != ob.fn.sha)
             if ob.status == ERROR:
                 self.errors.append(f'{ob.id}: {ob.detail}'); continue
+            if ob.status == INCONCLUSIVE:
+                self.undecided.append(ob); continue
             if ob.status == REFUTED or (ob.status == UNKNOWN and changed and ob.id in self.lock):
                 rp = ob.replay if isinstance(ob.replay, dict) else {}
                 confirmed = bool(rp.get('confirmed'))
